@@ -202,7 +202,16 @@ try:
     if left or ctx.section is not None or ctx.subsection is not None or tuple(ctx.expand_stack) != ("Pb",):
         fail("Wtp.start_page#post#lists-emptied-and-path-reset", f"after start_page: {left}, path {ctx.expand_stack}",
              "stale-messages")
-    evaluations += 6
+    ctx.start_section("S2")
+    ctx.start_subsection("Sub2")
+    ctx.start_page("Pc")
+    with quiet_stdout():
+        ctx.warning("first message on the new page", sortid="verif/2")
+    recs = ctx.to_return()["warnings"]
+    rec = recs[-1] if recs else {}
+    if len(recs) != 1 or rec.get("title") != "Pc" or rec.get("section") not in (None, "") or rec.get("subsection") not in (None, ""):
+        fail("Wtp.warning#post#record-shape", f"first record after start_page: {rec}", "stale-section")
+    evaluations += 7
 finally:
     mon.stop()
 
